@@ -6,6 +6,7 @@ import (
 	"fmt"
 	"math"
 	"os"
+	"reflect"
 	"sort"
 	"strconv"
 	"strings"
@@ -36,9 +37,9 @@ func newRtx() *rtx {
 	x := &rtx{vm: goja.New(), fns: map[string]goja.Value{}}
 	x.vm.Set("WB", func(call goja.FunctionCall) goja.Value {
 		if o, ok := call.Argument(0).(*goja.Object); ok {
-			return x.vm.ToValue(wbString(goja.VerifArray(o)))
+			return x.vm.ToValue(wbString(goja.VerifArray(o)) + "/" + strconv.Itoa(staleTail(o)))
 		}
-		return x.vm.ToValue("none/0/0/0")
+		return x.vm.ToValue("none/0/0/0/0")
 	})
 	goProbe := func(name string, f func(v goja.Value) interface{}) {
 		x.vm.Set(name, func(call goja.FunctionCall) (res goja.Value) {
@@ -128,6 +129,7 @@ type scenario struct {
 	flo, fhi  uint32
 	depthQ    int
 	depthT    int
+	first     bool // small high-yield scenario: its first two levels run before the round-robin starts
 	proto     bool // alphabet touches Array.prototype / Object.prototype: reset between runs, dump them
 	valueDump bool // host slice: compare length and element values only
 	probeKeys []M.Key
@@ -151,16 +153,20 @@ type wb struct {
 	s                     string
 	Kind                  string
 	Stored, ObjCount, PVC int
+	Tail                  int // non-nil slots in values[len:cap] (dense only)
 }
 
 func parseWB(s string) wb {
 	w := wb{s: s}
 	p := strings.Split(s, "/")
-	if len(p) == 4 {
+	if len(p) >= 4 {
 		w.Kind = p[0]
 		w.Stored, _ = strconv.Atoi(p[1])
 		w.ObjCount, _ = strconv.Atoi(p[2])
 		w.PVC, _ = strconv.Atoi(p[3])
+	}
+	if len(p) >= 5 {
+		w.Tail, _ = strconv.Atoi(p[4])
 	}
 	return w
 }
@@ -175,6 +181,39 @@ type transition struct {
 	postIdxCnt   int
 	postNonPlain bool
 	detail       string
+}
+
+// staleTail counts the non-nil slots in values[len:cap] of a dense array (-1 = not readable). The
+// slots beyond len must be nil: arrayObject.expand grows by reslicing within the capacity, so anything
+// left there comes back as an own element. goja.VerifArray does not expose the capacity, so this reads
+// Object.self.(*arrayObject).values through reflect (read-only, no change to /repo; a VerifArray field
+// would replace it, see NOTES.md). It is only hidden state for the state key and for root-cause
+// attribution; a stale tail alone is never reported.
+func staleTail(o *goja.Object) (n int) {
+	defer func() {
+		if recover() != nil {
+			n = -1
+		}
+	}()
+	self := reflect.ValueOf(o).Elem().FieldByName("self")
+	if !self.IsValid() || self.IsNil() {
+		return -1
+	}
+	impl := self.Elem()
+	if impl.Kind() != reflect.Ptr || impl.Elem().Type().Name() != "arrayObject" {
+		return 0
+	}
+	vals := impl.Elem().FieldByName("values")
+	if !vals.IsValid() || vals.Kind() != reflect.Slice {
+		return -1
+	}
+	full := vals.Slice3(0, vals.Cap(), vals.Cap())
+	for i := vals.Len(); i < full.Len(); i++ {
+		if !full.Index(i).IsNil() {
+			n++
+		}
+	}
+	return n
 }
 
 func wbString(i goja.VerifArrayInfo) string {
@@ -381,7 +420,8 @@ func (x *rtx) judge(sc *scenario, path []uint16, o *op, t *transition) []failure
 			if !pt.enabled || side.post.Kind != "dense" {
 				continue
 			}
-			if (f.drift == "+stale-objCount" && side.post.ObjCount != pt.postIdxCnt) || (f.drift == "+stale-propValueCount" && pt.postNonPlain && side.post.PVC == 0) {
+			if (f.drift == "+stale-objCount" && side.post.ObjCount != pt.postIdxCnt) || (f.drift == "+stale-propValueCount" && pt.postNonPlain && side.post.PVC == 0) ||
+				(f.drift == "+stale-tail" && side.post.Tail > 0) {
 				culprit = po.class
 				if side.pre.Kind != "dense" {
 					culprit += " switching sparse->dense"
@@ -391,7 +431,11 @@ func (x *rtx) judge(sc *scenario, path []uint16, o *op, t *transition) []failure
 		}
 		kind := "dense"
 		f.what = "exposed by " + o.class + ": " + f.what
-		f.sig = "stale" + strings.TrimPrefix(f.drift, "+stale") + " after " + culprit + "|" + kind + "|fast path misreads the array"
+		symptom := "fast path misreads the array"
+		if f.drift == "+stale-tail" {
+			symptom = "regrowth within the capacity resurrects removed elements"
+		}
+		f.sig = "stale" + strings.TrimPrefix(f.drift, "+stale") + " after " + culprit + "|" + kind + "|" + symptom
 	}
 	if len(fs) == 2 && fs[0].sig == fs[1].sig {
 		fs = fs[:1]
@@ -492,6 +536,9 @@ func (t *transition) driftTag(o obs) string {
 	if o.pre.Kind != "dense" {
 		return ""
 	}
+	if o.pre.Tail > 0 {
+		return "+stale-tail"
+	}
 	if t.modelNonPlan && o.pre.PVC == 0 {
 		return "+stale-propValueCount"
 	}
@@ -518,7 +565,7 @@ func kindName(sc *scenario, o obs) string {
 func (t *transition) judgeSide(sc *scenario, o *op, side obs) *failure {
 	kind := kindName(sc, side)
 	dr := ""
-	if hasFastPath[o.class] {
+	if hasFastPath[o.class] || side.pre.Tail > 0 {
 		dr = t.driftTag(side)
 	}
 	cls := o.class + t.detail
@@ -824,7 +871,7 @@ func (s *search) level(sweep bool) bool {
 						"storage_twin":    t.twin.pre.s + " -> " + t.twin.post.s})
 				}
 				if t.main.post.Kind == "dense" && t.main.pre.Kind == "dense" && !t.drift(t.main) &&
-					(t.main.post.ObjCount > t.postIdxCnt || (t.postNonPlain && t.main.post.PVC == 0)) {
+					(t.main.post.ObjCount > t.postIdxCnt || (t.postNonPlain && t.main.post.PVC == 0) || t.main.post.Tail > 0) {
 					e.mu.Lock()
 					e.driftBy[o.class]++
 					e.mu.Unlock()
